@@ -474,7 +474,7 @@ pub fn apply_corruption(bytes: &mut Vec<u8>, kv: &Kv, key: &[u8]) -> Option<Stri
             bytes.truncate(keep);
         }
         "extend" => {
-            for i in 0..n.min(2048) {
+            for i in 0..n.min(65000) {
                 bytes.push(val.wrapping_add(i as u8));
             }
         }
@@ -492,6 +492,45 @@ pub fn apply_corruption(bytes: &mut Vec<u8>, kv: &Kv, key: &[u8]) -> Option<Stri
                     let l = a.value.len() as i64;
                     let nl = (l + d).clamp(0, 65535) as u16;
                     bytes[a.off + 2..a.off + 4].copy_from_slice(&nl.to_be_bytes());
+                }
+            }
+        }
+        "hdrlen-set" => {
+            if bytes.len() >= 4 {
+                let nl = kv_u64(kv, "v", 0).min(65535) as u16;
+                bytes[2..4].copy_from_slice(&nl.to_be_bytes());
+            }
+        }
+        "attrlen-set" => {
+            if let Ok(p) = wire::parse(bytes) {
+                if !p.attrs.is_empty() {
+                    let a = &p.attrs[idx % p.attrs.len()];
+                    let nl = kv_u64(kv, "v", 0).min(65535) as u16;
+                    bytes[a.off + 2..a.off + 4].copy_from_slice(&nl.to_be_bytes());
+                }
+            }
+        }
+        "nested-set" => {
+            // k-th inner length field of the idx-th attribute that carries nested (algorithm, length, parameters) items
+            if let Ok(p) = wire::parse(bytes) {
+                let nests: Vec<&wire::RawAttr> = p.attrs.iter().filter(|a| a.typ == wire::A_PASSWORD_ALGORITHMS || a.typ == wire::A_PASSWORD_ALGORITHM).collect();
+                if !nests.is_empty() {
+                    let a = nests[idx % nests.len()];
+                    let k = kv_u64(kv, "k", 0) as usize;
+                    // walk the items
+                    let mut pos = 0usize;
+                    let mut i = 0usize;
+                    while pos + 4 <= a.value.len() {
+                        let l = u16::from_be_bytes([a.value[pos + 2], a.value[pos + 3]]) as usize;
+                        if i == k {
+                            let o = a.off + 4 + pos + 2;
+                            let nl = kv_u64(kv, "v", 0).min(65535) as u16;
+                            bytes[o..o + 2].copy_from_slice(&nl.to_be_bytes());
+                            break;
+                        }
+                        pos += 4 + wire::pad4(l);
+                        i += 1;
+                    }
                 }
             }
         }
@@ -567,10 +606,23 @@ fn gen_corruption(rng: &mut Rng, len: usize, splice: bool) -> String {
         0 | 1 => format!("corrupt=bit pos={}", rng.below((len.max(1) * 8) as u64)),
         2 => format!("corrupt=byte pos={} val={}", rng.below(len.max(1) as u64), *rng.pick(&[0u64, 255, 1, 0x80, 0x21, 0x15])),
         3 => format!("corrupt=trunc n={}", rng.below(len.max(1) as u64)),
-        4 => format!("corrupt=extend n={} val={}", rng.range(1, 64), rng.below(256)),
+        4 => format!("corrupt=extend n={} val={}", if rng.chance(1, 10) { rng.range(64, 60000) } else { rng.range(1, 64) }, rng.below(256)),
         5 => format!("corrupt=hdrlen d={}", *rng.pick(&[-8i64, -4, -1, 1, 3, 4, 8, 400])),
-        6 => format!("corrupt=attrlen idx={} d={}", rng.below(6), *rng.pick(&[-4i64, -1, 1, 2, 4, 60000])),
-        7 => format!("corrupt=nested d={}", *rng.pick(&[-1i64, 1, 3, 4, 9, 65000])),
+        6 => {
+            if rng.chance(1, 2) {
+                format!("corrupt=attrlen idx={} d={}", rng.below(6), *rng.pick(&[-4i64, -1, 1, 2, 4, 60000]))
+            } else {
+                // any length from zero to a little beyond the original (the original is not known here: small absolute values)
+                format!("corrupt=attrlen-set idx={} v={}", rng.below(6), rng.below(40))
+            }
+        }
+        7 => {
+            if rng.chance(1, 2) {
+                format!("corrupt=nested d={}", *rng.pick(&[-1i64, 1, 3, 4, 9, 65000]))
+            } else {
+                format!("corrupt=nested-set idx={} k={} v={}", rng.below(2), rng.below(3), rng.below(12))
+            }
+        }
         _ => format!("corrupt=utf8 idx={} pos={} val={}", rng.below(4), rng.below(20), rng.below(6)),
     }
 }
@@ -598,6 +650,8 @@ pub struct RunOpts {
     pub probe_start_at: Option<u64>,
     /// bounded liveness: once faults have stopped, a fresh request must be delivered within 3 exchanges
     pub probe_fresh_request: bool,
+    /// systematic sweeps: apply this corruption to the bytes of exactly this delivery
+    pub override_delivery: Option<(Origin, String)>,
 }
 
 #[derive(Clone, Debug, PartialEq, Eq, PartialOrd, Ord)]
@@ -1216,7 +1270,7 @@ impl<'a> World<'a> {
                         0 | 1 => parts.push("lt=438".to_string()),
                         2 => parts.push("lt=401".to_string()),
                         3 => parts.push("lt=accept".to_string()),
-                        4 => parts.push(format!("lt=401 algs={}", *rng.pick(&["none", "md5", "sha", "md5sha", "shamd5", "unsup", "unsupsha", "empty"]))),
+                        4 => parts.push(format!("lt=401 algs={}", *rng.pick(&["none", "md5", "sha", "md5sha", "shamd5", "unsup", "unsupsha", "empty", "md5p1", "shap2", "p3sha", "md5p5sha"]))),
                         5 => parts.push(format!("lt=401 anon={} nonce={}", rng.below(2), *rng.pick(&["plain", "cookie"]))),
                         6 => parts.push(format!("lt=401 {}", *rng.pick(&["norealm", "nononce", "noerr", "noalgs"]))),
                         _ => parts.push(format!("lt=438 {}", *rng.pick(&["nononce", "norealm", "noerr", "noalgs", "integ=auto"]))),
@@ -1604,7 +1658,14 @@ impl<'a> World<'a> {
                         *rng.pick(&["auto", "auto", "none", "bad", "wrongkey", "other", "both", "mi", "sha"]),
                         if rng.chance(1, 5) { *rng.pick(&[" fp=none", " fp=bad", " fp=force"]) } else if rng.chance(1, 4) { *rng.pick(&[" usetx=0", " usetx=1", " usetx=2"]) } else { "" }
                     ),
-                    4 => format!("t={} kind=random seed={} n={}{}", at, rng.below(1 << 30), rng.below(120), if rng.chance(1, 2) { " stunlike" } else { "" }),
+                    4 => format!(
+                        "t={} kind=random seed={} n={}{}",
+                        at,
+                        rng.below(1 << 30),
+                        // mostly small; sometimes up to the 64 KiB a datagram can carry
+                        if rng.chance(1, 25) { rng.range(1000, 65535) } else { rng.below(120) },
+                        if rng.chance(1, 2) { " stunlike" } else { "" }
+                    ),
                     5 => format!("t={} kind=random seed={} n={}", at, rng.below(1 << 30), rng.below(30)),
                     6 => format!("t={} kind=timeout", at),
                     7 => format!("t={} kind=stall dur={}", at, rng.log_range(MS, 700 * SEC)),
@@ -1675,7 +1736,19 @@ impl<'a> World<'a> {
                     }
                 }
                 EvKind::C2s { bytes, .. } => self.server_rx(bytes),
-                EvKind::S2c { n, copy, bytes, fault } => self.do_recv(bytes, Origin::S2c(n, copy), fault),
+                EvKind::S2c { n, copy, mut bytes, mut fault } => {
+                    let origin = Origin::S2c(n, copy);
+                    if let Some((o, spec)) = self.opts.override_delivery.clone() {
+                        if o == origin {
+                            let key = self.session_key();
+                            if let Some(f) = apply_corruption(&mut bytes, &parse_kv(&spec), &key) {
+                                self.ledger.stats.fault(&f);
+                                fault = format!("{}(sweep)", f);
+                            }
+                        }
+                    }
+                    self.do_recv(bytes, origin, fault)
+                }
                 EvKind::Timer { gen, n } => {
                     if gen == self.timer_gen && self.timer_armed.is_some() {
                         self.timer_armed = None;
@@ -1829,6 +1902,15 @@ pub fn run(src: &mut Source, profile: &Profile, opts: &RunOpts) -> RunResult {
         // replay: the plan lists the faults explicitly; `swarm` is informational
         let _ = src.decide("swarm", |_| None);
     }
+    // systematic sweeps record the delivery they tamper with as a plan entry, so that replay files work
+    let mut opts = opts.clone();
+    if let Some(v) = src.decide("override", |_| None) {
+        let kv = parse_kv(&v);
+        let n = kv_u64(&kv, "n", 0) as usize;
+        let c = kv_u64(&kv, "c", 0) as usize;
+        opts.override_delivery = Some((Origin::S2c(n, c), v.clone()));
+    }
+    let opts = &opts;
     stun_rs::verif::seed_transaction_ids(Some(cfg.txid_seed));
     let client = build_client(&cfg).ok();
     let server = RefServer::new(ServerCfg {
